@@ -11,6 +11,16 @@ UNSEEDED = ('numpy.random.default_rng', 'numpy.random.Generator', 'numpy.random.
 FLOOR_DRAWS = 8
 
 
+def _addr_use_ok(c, p):
+    if isinstance(p, ast.Compare) and all(isinstance(o, (ast.In, ast.NotIn, ast.Eq, ast.NotEq, ast.Is, ast.IsNot)) for o in p.ops):
+        return True
+    if isinstance(p, ast.Call) and isinstance(p.func, ast.Attribute) and p.func.attr in ('add', 'discard', 'remove') and c in p.args:
+        return True
+    if isinstance(p, ast.Subscript) and p.slice is c:
+        return True       # id-keyed dict lookup
+    return False
+
+
 def check(model, R, tier):
     R.rule('C19.SEED', 'manual_seed seeds every generator family the package draws from (NumPy global state and Python random) with its argument, unconditionally', floor=2)
     R.rule('C19.SOURCE', 'every random draw in the package is a call on the seeded global generators (np.random.<legacy fn> / random.<fn>); no unseeded generator object, OS entropy, uuid or clock', floor=FLOOR_DRAWS)
@@ -119,7 +129,19 @@ def check(model, R, tier):
                 n_id += 1
                 p = parents.get(id(c))
                 ok = False
-                if isinstance(p, ast.Compare) and all(isinstance(o, (ast.In, ast.NotIn, ast.Eq, ast.NotEq, ast.Is, ast.IsNot)) for o in p.ops):
+                uses = [(c, p)]
+                if isinstance(p, ast.Assign) and len(p.targets) == 1 and isinstance(p.targets[0], ast.Name) and p.value is c:
+                    # a temporary holding the address: every load of it is judged like the call itself
+                    t = p.targets[0].id
+                    uses = [(u, parents.get(id(u))) for u in ast.walk(fn.node) if isinstance(u, ast.Name) and u.id == t and isinstance(u.ctx, ast.Load)]
+                    stores = [u for u in ast.walk(fn.node) if isinstance(u, ast.Name) and u.id == t and isinstance(u.ctx, ast.Store)]
+                    if len(stores) == 1 and uses and all(_addr_use_ok(u, q) for u, q in uses):
+                        ok = True
+                    R.ob('C19.NOADDR', fn.qualname, norm(p)[:80], ok, 'an object address / hash flows into a value: results would depend on the allocation layout', '%s:%d' % (fn.mod.relpath, c.lineno))
+                    continue
+                if _addr_use_ok(c, p):
+                    ok = True
+                if False and isinstance(p, ast.Compare) and all(isinstance(o, (ast.In, ast.NotIn, ast.Eq, ast.NotEq, ast.Is, ast.IsNot)) for o in p.ops):
                     ok = True
                 if isinstance(p, ast.Call) and isinstance(p.func, ast.Attribute) and p.func.attr in ('add', 'discard', 'remove') and c in p.args:
                     ok = True
